@@ -2,6 +2,11 @@ module verifharness
 
 go 1.21
 
-require github.com/evanphx/json-patch/v5 v5.0.0
+require (
+	github.com/evanphx/json-patch v0.0.0
+	github.com/evanphx/json-patch/v5 v5.0.0
+)
 
 replace github.com/evanphx/json-patch/v5 => /repo/v5
+
+replace github.com/evanphx/json-patch => /repo/v4stage
